@@ -236,6 +236,7 @@ type Op struct {
 	Src   []*NSrc
 	SrcKV []NKV
 	Typed bool
+	Derived bool // NewList / NewObject: the container is a derived structure (a user type embedding List / Object, registered with Init); the model does not distinguish
 }
 
 func coqZs(zs []int64) string {
@@ -459,11 +460,19 @@ func (m *Machine) execNow(o *Op) (outcome string) {
 		}
 		switch o.Name {
 		case "NewList":
-			result, hasResult = at.NewList(m.operands(o.Vals)...), true
+			if o.Derived {
+				result, hasResult = newMyList(m.operands(o.Vals)...), true
+			} else {
+				result, hasResult = at.NewList(m.operands(o.Vals)...), true
+			}
 		case "NewListOf":
 			result, hasResult = at.NewListOf(m.operand(o.Vals[0]), int(o.I)), true
 		case "NewObject":
-			result, hasResult = at.NewObject(m.operands(o.Vals)...), true
+			if o.Derived {
+				result, hasResult = newMyObj(m.operands(o.Vals)...), true
+			} else {
+				result, hasResult = at.NewObject(m.operands(o.Vals)...), true
+			}
 		case "LAdd":
 			l := m.list(o.R)
 			fluentL(l, l.Add(m.operands(o.Vals)...))
@@ -870,7 +879,7 @@ func (p *Prog) boundaryIndex(n int) int64 {
 	return pickOf(p.r, cands)
 }
 
-var heapKeys = []string{"", "a", "b", "c", "a.b", "#0", ".x", "\"q\"", "é", "k"}
+var heapKeys = []string{"", "a", "b", "c", "a.b", "#0", ".x", "\"q\"", "é", "k", "a ", " a", "k\n"}
 
 func (p *Prog) key(ob at.Object) string {
 	if ob != nil && ob.Count() > 0 && p.r.chance(0.6) {
@@ -1204,7 +1213,7 @@ func (p *Prog) corruptPath(s string) string {
 		return "#"
 	}
 	b := []byte(s)
-	switch p.r.Intn(10) {
+	switch p.r.Intn(13) {
 	case 0: // drop a segment
 		idx := strings.LastIndexAny(s, ".#")
 		if idx > 0 {
@@ -1241,6 +1250,30 @@ func (p *Prog) corruptPath(s string) string {
 		return strings.Replace(s, "#1", pickOf(p.r, []string{"#01", "#0x1", "#+1", "#1_", "#0b1", "#1e0", "#-1", "#00"}), 1)
 	case 7:
 		return strings.Replace(s, "#0", pickOf(p.r, []string{"#-0", "#00", "#0x0", "#+0", "#", "#0_0", "#99999999999999999999"}), 1)
+	case 10: // an index segment that is one character which is no digit, or a digit of another script, or a number with blanks
+		bad := pickOf(p.r, []string{":", ";", "A", "F", "a", "z", "/", "~", " ", "\u0663", "\u0967", "\uff11", " 1", "1 ", "\t0", "0\n", "1.0", "1e1", "١"})
+		if i := strings.LastIndexByte(s, '#'); i >= 0 {
+			j := i + 1
+			for j < len(s) && s[j] != '.' && s[j] != '#' {
+				j++
+			}
+			return s[:i+1] + bad + s[j:]
+		}
+		return "#" + bad
+	case 11: // blanks around the whole path or around a segment
+		switch p.r.Intn(5) {
+		case 0:
+			return s + pickOf(p.r, []string{" ", "\t", "\n", "\u00a0"})
+		case 1:
+			return pickOf(p.r, []string{" ", "\t", "\n"}) + s
+		case 2:
+			return strings.TrimRight(s, " \t\n")
+		case 3:
+			i := p.r.Intn(len(b))
+			return s[:i] + " " + s[i:]
+		default:
+			return strings.Replace(s, " ", "", 1)
+		}
 	case 8: // random string over the path alphabet
 		n := 1 + p.r.Intn(6)
 		r := make([]byte, n)
@@ -1253,7 +1286,7 @@ func (p *Prog) corruptPath(s string) string {
 	}
 }
 
-var tfKeys = []string{"a", "b", "c", "k", "é", "zz"}
+var tfKeys = []string{"a", "b", "c", "k", "é", "zz", "a ", " b", "k\t"}
 
 // a well-formed path (non-empty keys free of '.' and '#', canonical non-negative decimal indices) starting at container x:
 // follows existing structure for a while, then may branch into new territory
@@ -1444,9 +1477,45 @@ func heapProgramBody(p *Prog, r *R, prof string) {
 			p.anyOp(0.5)
 		}
 		src := r.Intn(len(p.m.vars))
+		hasDerived := false
+		switch r.Intn(7) {
+		case 0:
+			// a long list (copy strategies may change with the length) with containers in its last positions, also nested one level down
+			n := pickOf(r, []int{17, 33, 65, 128, 129, 130, 131, 200, 257})
+			p.do(&Op{Name: "NewListOf", Vals: []Operand{p.scalar()}, I: int64(n)})
+			long := len(p.m.vars) - 1
+			var tail []Operand
+			for k := 1 + r.Intn(3); k > 0; k-- {
+				tail = append(tail, p.value(long))
+			}
+			p.do(&Op{Name: "NewList", Vals: []Operand{p.scalar()}})
+			tail = append(tail, Operand{IsReg: true, Reg: len(p.m.vars) - 1})
+			if r.chance(0.5) {
+				tail = append(tail, p.scalar())
+			}
+			p.do(&Op{Name: "LAdd", R: long, Vals: tail})
+			src = long
+			if r.chance(0.4) {
+				p.do(&Op{Name: "NewObject", Vals: []Operand{{V: vstr("long")}, {IsReg: true, Reg: long}}})
+				src = len(p.m.vars) - 1
+			}
+		case 1:
+			// derived structures (user types embedding List / Object) stored as a direct field, as a list element, and nested
+			p.do(&Op{Name: "NewObject", Derived: true, Vals: []Operand{{V: vstr("d")}, p.scalar()}})
+			dobj := len(p.m.vars) - 1
+			p.do(&Op{Name: "NewList", Derived: true, Vals: []Operand{p.scalar(), p.scalar()}})
+			dlist := len(p.m.vars) - 1
+			p.do(&Op{Name: "NewObject", Vals: []Operand{{V: vstr("o")}, {IsReg: true, Reg: dobj}, {V: vstr("l")}, {IsReg: true, Reg: dlist}, {V: vstr("x")}, p.scalar()}})
+			holder := len(p.m.vars) - 1
+			p.do(&Op{Name: "NewList", Vals: []Operand{{IsReg: true, Reg: dobj}, {IsReg: true, Reg: holder}, {IsReg: true, Reg: dlist}}})
+			src = pickOf(r, []int{holder, len(p.m.vars) - 1})
+			hasDerived = true
+		}
 		p.do(&Op{Name: "Clone", R: src})
 		clone := len(p.m.vars) - 1
-		p.do(&Op{Name: "Equals", R: src, A: clone})
+		if !hasDerived { // (Equals on derived structures is outside every property: it compares implementation types)
+			p.do(&Op{Name: "Equals", R: src, A: clone})
+		}
 		// C08 predicates on the implementation: equal, and no container shared
 		a, b := map[any]bool{}, map[any]bool{}
 		reach(p.m.vars[src], a)
@@ -1456,7 +1525,7 @@ func heapProgramBody(p *Prog, r *R, prof string) {
 				p.m.fail("Clone shares a container with its source")
 			}
 		}
-		if eq, _ := equalsAny(p.m.vars[src], p.m.vars[clone]); !eq && fromAny(p.m.vars[src]).nanFree() {
+		if eq, _ := equalsAny(p.m.vars[src], p.m.vars[clone]); !eq && !hasDerived && fromAny(p.m.vars[src]).nanFree() {
 			p.m.fail("Clone does not Equal its source")
 		}
 		// register nested containers of both sides as variables (Get), then mutate
@@ -1532,6 +1601,18 @@ func heapProgramBody(p *Prog, r *R, prof string) {
 		}
 	case "C10", "C11":
 		nb := 4 + r.Intn(8)
+		if r.chance(0.2) {
+			// a long list (index segments with two digits resolve; a one-character segment such as ':' or 'A' or 'a' misread as a
+			// number would land inside it), stored in an object as well
+			n := pickOf(r, []int{11, 12, 18, 20, 50, 60, 101})
+			p.do(&Op{Name: "NewListOf", Vals: []Operand{p.scalar()}, I: int64(n)})
+			long := len(p.m.vars) - 1
+			for k := 0; k < 3; k++ {
+				p.do(&Op{Name: "LReplace", R: long, I: int64(r.Intn(n)), Vals: []Operand{p.scalar()}})
+			}
+			p.do(&Op{Name: "NewObject", Vals: []Operand{{V: vstr("items")}, {IsReg: true, Reg: long}, {V: vstr("a ")}, p.scalar()}})
+			nb += 5
+		}
 		for len(p.ops) < nb && !p.broken {
 			p.anyOp(0.5)
 		}
